@@ -18,6 +18,7 @@ import families as F
 import translate as T
 import translate_fn as TF
 import translate_p as TP
+import translate_v as TV
 
 AXIOM_ALLOW = set()   # names of standard-library axioms accepted under property theorems (none needed so far)
 
@@ -69,11 +70,13 @@ def check_proofs(pid, tier):
     mine = [t for t, ps in T.USED_BY.items() if pid in ps]
     mine_fn = [t for t, ps in TF.USED_BY.items() if pid in ps]
     mine_p = [t for t, ps in TP.USED_BY.items() if pid in ps]
-    if ok and (mine or mine_fn or mine_p):
+    mine_v = [t for t, ps in TV.USED_BY.items() if pid in ps]
+    if ok and (mine or mine_fn or mine_p or mine_v):
         st = T.run(only=mine) if mine else {}
         if mine_fn: st.update({'fn:' + k: v for k, v in TF.run(only=mine_fn).items()})
         if mine_p: st.update({'parser:' + k: v for k, v in TP.run(only=mine_p).items()})
-        mine = mine + ['fn:' + k for k in mine_fn] + ['parser:' + k for k in mine_p]
+        if mine_v: st.update({'vparser:' + k: v for k, v in TV.run(only=mine_v).items()})
+        mine = mine + ['fn:' + k for k in mine_fn] + ['parser:' + k for k in mine_p] + ['vparser:' + k for k in mine_v]
         for t in mine:
             x = st.get(t, {'status': 'unparsed', 'reason': 'not run'})
             res['source_tables'][t] = {k: v for k, v in x.items() if k != 'file'}
@@ -85,7 +88,7 @@ def check_proofs(pid, tier):
             else:
                 res['problems'].append('the fragment `%s` translated from the Rust source is no longer the model function the theorems are about (%s fails): %s'
                                        % (t, x['theorem'], (x.get('coq_error') or 'not closed under the global context')[-500:]))
-        res['checker_cmd'] += '; tools/translate.py / translate_fn.py / translate_p.py + coqc coq/Gen/{Src,Fn,P}_*.v for %s' % ','.join(mine)
+        res['checker_cmd'] += '; tools/translate.py / translate_fn.py / translate_p.py / translate_v.py + coqc coq/Gen/{Src,Fn,P,V}_*.v for %s' % ','.join(mine)
     bad = B.audit_sources()
     if bad: res['problems'].append('source audit: ' + '; '.join(bad[:5]))
     if tier == 'thorough' and ok and not res['problems']:
